@@ -357,6 +357,9 @@ def _fault_hook(k):
         f = k.armed
         if f is None or f.fired or k.seq < f.at_seq:
             return
+        pc = K.cur()
+        if pc is None or pc.role != 'parent':
+            return      # faults of a history target the host process, not the workers of an embedded Monte-Carlo pool
         exc = None
         if f.kind == 'cancel':
             exc = KeyboardInterrupt()
